@@ -17,7 +17,9 @@ RULE = (
     "pos/mom/dir (fresh array, in-place augmented assignment through the attribute, or equal values), copy, "
     "read-only copy, pickle round trip, call of any public cached or derived method of either system, call of all "
     "methods, one integrator step, one transition (static/random Metropolis, multinomial, slice, momentum "
-    "refresh), write attempt on a read-only copy. Oracle: after every call the result equals the same method on a "
+    "refresh), write attempt on a read-only copy; further: copy.copy / copy.deepcopy of a state, the second system "
+    "object dropped and a new one of the same class constructed (as a loop over models re-using one state does), the "
+    "second system's public metric attribute re-assigned, project_onto_cotangent_space(state.mom, state). Oracle: after every call the result equals the same method on a "
     "freshly constructed ChainState holding copies of the current variables (rtol 1e-10; matrices densely, "
     "VJP/MHP/MTP callables by application); a step/transition from the (cache-laden) state equals the run with "
     "caching defeated (run-time subclass whose outermost cached-method entry empties the cache) from a fresh state "
@@ -30,7 +32,7 @@ ASSUMPTIONS = ["state variables are changed only through attribute assignment (e
 
 
 def strategy(tier):
-    return hist.history()
+    return hist.history(extended=True)
 
 
 def selfcheck():
@@ -69,6 +71,14 @@ def run_case(case) -> Result:
     interesting = False
 
     def fail(key, msg):
+        # root-cause hint: the rarest kind of event that occurred before the failure
+        kinds = {e[0] for e in events}
+        for tag in ("project", "copy_copy", "set_metric", "rebuild_B"):
+            if tag in kinds:
+                key += {"project": ":after-project_onto_cotangent_space(state.mom)", "copy_copy": ":after-copy.copy(state)",
+                        "set_metric": ":after-system.metric-reassigned",
+                        "rebuild_B": ":after-system-object-replaced"}[tag]
+                break
         res.fail(f"C09:{key}", msg, history=[o["op"] for o in case["ops"]])
 
     def guard(key, fn):
@@ -165,6 +175,69 @@ def run_case(case) -> Result:
                 pool[j], on_manifold[j] = new, on_manifold[i]
             events.append((kind, i, f"->{j}"))
             events.extend(("call", j, e[2]) for e in list(events) if e[0] == "call" and e[1] == i)
+        elif kind == "rebuild_B":
+            if case.get("sysB_from"):
+                continue
+            specs["B"] = op["spec"]
+            old_id = id(systems["B"])
+            del systems["B"]            # no other reference is held: the object is freed before the next is built
+            # a loop over models: whether CPython hands a new object the freed object's id depends on the allocator;
+            # construct (and drop) up to 8 systems until it does, so that the scenario is exercised reliably
+            for attempt in range(8):
+                new_sys, new_model = zoo.build_system(op["spec"])
+                if id(new_sys) == old_id:
+                    break
+                old2 = id(new_sys)
+                del new_sys
+                if attempt < 7:
+                    continue
+                new_sys, new_model = zoo.build_system(op["spec"])
+            systems["B"], models["B"] = new_sys, new_model
+            res.classes.append("op:rebuild_B:" + ("id-reused" if id(new_sys) == old_id else "id-not-reused"))
+            events.append(("rebuild_B", i, ""))
+        elif kind == "set_metric":
+            which = op["sys"]
+            if specs[which]["cls"] not in zoo.TRACTABLE or (which == "A" and True):
+                # A's reference objects (integrator, cache-defeating twin) are built from its original spec: only B's
+                # metric is re-assigned
+                which = "B"
+            if specs["B"]["cls"] not in zoo.TRACTABLE:
+                continue
+            specs["B"] = dict(specs["B"], metric=op["metric"])
+            systems["B"].metric = zoo.build_metric(op["metric"], n)
+            models["B"] = zoo.Model(specs["B"])
+            res.classes.append("op:set_metric")
+            events.append(("set_metric", i, "B"))
+        elif kind in ("copy_copy", "deepcopy_state"):
+            import copy as _copy
+
+            ok, new = guard(kind, lambda: (_copy.copy if kind == "copy_copy" else _copy.deepcopy)(state))
+            if not ok:
+                continue
+            res.classes.append("op:" + kind)
+            if len(pool) < 6:
+                pool.append(new)
+                on_manifold.append(on_manifold[i])
+                j = len(pool) - 1
+            else:
+                j = op["j"] % len(pool)
+                pool[j], on_manifold[j] = new, on_manifold[i]
+            events.append((kind, i, f"->{j}"))
+            interesting = True
+        elif kind == "project":
+            # the projection is a function of (mom, state): called with the state's own momentum, as the library does
+            for which in ("A", "B"):
+                if specs[which]["cls"] in zoo.CONSTRAINED and not state._read_only:
+                    J = models[which].con.jac(np.asarray(state.pos, dtype=float))
+                    if zoo.gram_ill_conditioned(J, models[which].Minv_const):
+                        continue
+                    guard("project_onto_cotangent_space",
+                          lambda w=which: systems[w].project_onto_cotangent_space(state.mom, state))
+                    res.classes.append("op:project")
+                    events.append(("project", i, which))
+                    if which == "A":
+                        on_manifold[i] = on_manifold[i]
+                    break
         elif kind == "write_ro":
             if not state._read_only:
                 continue
